@@ -519,7 +519,13 @@ func checkGethLayer(cr *caseResult, drv *lib.Driver) {
 			finMarks = append(finMarks, m)
 		}
 	}
-	if len(finMarks) == len(o.FinLog) {
+	drops := false
+	for _, op := range c.Ops {
+		if strings.HasPrefix(op.Kind, "suberr") {
+			drops = true // a call made into a connection that is being dropped may never reach the node, or reach it twice
+		}
+	}
+	if len(finMarks) == len(o.FinLog) && !drops {
 		var gl, ge []string
 		var cur []string
 		closeG := func(fin string) {
